@@ -87,7 +87,9 @@ def tree_info(tree, warns):
 def make_optimizer(sess, directory):
     import cotengra as ctg
     kw = dict(directory=directory, overwrite=sess["overwrite"], hash_method=sess["hash_method"],
-              cache_only=sess["cache_only"], directory_split=sess["split"])
+              cache_only=sess["cache_only"])
+    if sess["split"] != "auto":         # "auto" = the constructor's default: leave it out
+        kw["directory_split"] = sess["split"]
     if sess["kind"] == "hyper":
         extra = {}
         if sess["slicing"]:
